@@ -141,11 +141,17 @@ func (req *pbRequest) Unmarshal(data []byte) error {
 			if wireType != 0 {
 				return fmt.Errorf("proto: wrong wireType = %d for field Seq", wireType)
 			}
+			if varintSize(data[offset:]) == 0 {
+				return errTruncated
+			}
 			n = code.DecodeVarint(data[offset:], &req.Seq)
 			offset += n
 		case 2:
 			if wireType != 2 {
 				return fmt.Errorf("proto: wrong wireType = %d for field Upgrade", wireType)
+			}
+			if fieldSize(data[offset:]) == 0 {
+				return errTruncated
 			}
 			n = code.DecodeBytes(data[offset:], &req.Upgrade)
 			offset += n
@@ -153,11 +159,17 @@ func (req *pbRequest) Unmarshal(data []byte) error {
 			if wireType != 2 {
 				return fmt.Errorf("proto: wrong wireType = %d for field ServiceMethod", wireType)
 			}
+			if fieldSize(data[offset:]) == 0 {
+				return errTruncated
+			}
 			n = code.DecodeString(data[offset:], &req.ServiceMethod)
 			offset += n
 		case 4:
 			if wireType != 2 {
 				return fmt.Errorf("proto: wrong wireType = %d for field Args", wireType)
+			}
+			if fieldSize(data[offset:]) == 0 {
+				return errTruncated
 			}
 			n = code.DecodeBytes(data[offset:], &req.Args)
 			offset += n
@@ -278,17 +290,26 @@ func (res *pbResponse) Unmarshal(data []byte) error {
 			if wireType != 0 {
 				return fmt.Errorf("proto: wrong wireType = %d for field Seq", wireType)
 			}
+			if varintSize(data[offset:]) == 0 {
+				return errTruncated
+			}
 			n = code.DecodeVarint(data[offset:], &res.Seq)
 			offset += n
 		case 2:
 			if wireType != 2 {
 				return fmt.Errorf("proto: wrong wireType = %d for field Error", wireType)
 			}
+			if fieldSize(data[offset:]) == 0 {
+				return errTruncated
+			}
 			n = code.DecodeString(data[offset:], &res.Error)
 			offset += n
 		case 3:
 			if wireType != 2 {
 				return fmt.Errorf("proto: wrong wireType = %d for field Reply", wireType)
+			}
+			if fieldSize(data[offset:]) == 0 {
+				return errTruncated
 			}
 			n = code.DecodeBytes(data[offset:], &res.Reply)
 			offset += n
